@@ -313,6 +313,35 @@ impl Check for C12 {
                 }
                 17 => ("textDocument/hover", json!({"textDocument": {"uri": uri}, "position": {"line": 0, "character": 0}}), "unknown-method".into()),
                 18 => (*rng.pick(&["textDocument/formatting", "textDocument/rename", "textDocument/codeAction", "workspace/symbol"]), json!(5), "mistyped-params".into()),
+                19 if rng.chance(1, 2) => {
+                    // well-typed but hostile notifications: they must not end or wedge the server
+                    let kuri = s.uri(&key);
+                    let (m, p, c): (&str, Value, &str) = match rng.below(6) {
+                        0 => ("textDocument/didChange", json!({"textDocument": {"uri": kuri, "version": 3}, "contentChanges": []}), "didChange-no-changes"),
+                        1 => ("textDocument/didSave", json!({"textDocument": {"uri": kuri}}), "didSave-without-text"),
+                        2 => ("textDocument/didChange", json!({"textDocument": {"uri": "untitled:x", "version": 1}, "contentChanges": [{"text": "# u\n"}]}), "didChange-non-file-uri"),
+                        3 => ("textDocument/didChange", json!(7), "didChange-mistyped"),
+                        4 => ("textDocument/didOpen", json!({"textDocument": {"uri": kuri, "languageId": "markdown", "version": 1, "text": "x"}}), "unknown-notification"),
+                        _ => ("$/cancelRequest", json!({"id": 1}), "cancel"),
+                    };
+                    s.notify(m, p);
+                    rep.count(&format!("notify:{}", c), 1);
+                    script.push(json!({"notify": m, "class": c}));
+                    rep.shape(fnv(&format!("notify|{}", c)));
+                    // the edit that follows a hostile notification must still be applied
+                    let nt = format!("# after {} {}\n\npara\n", c, step);
+                    s.did_change(&key, &nt);
+                    lib.insert(key.clone(), nt);
+                    let probe = s.formatted_text(&key);
+                    let want = mon::catch(|| export_lib(&lib, "")).ok().and_then(|m| m.get(&key).cloned());
+                    rep.count("events", 1);
+                    mon::drain_thread_panics();
+                    if probe.is_none() || probe != want {
+                        rep.violate("server-stopped-serving", &format!("after-notify:{}", c), format!("after notification {} ({}) and a valid edit, formatting of {} returned {:?}, model {:?}", m, c, key, probe.as_ref().map(|s| s.chars().take(60).collect::<String>()), want.as_ref().map(|s| s.chars().take(60).collect::<String>())), json!({"library": lib, "script": script}));
+                        break;
+                    }
+                    continue;
+                }
                 _ => {
                     // an edit in between (valid traffic)
                     let nt = format!("# v{}\n\npara {}\n", step, step);
@@ -327,6 +356,9 @@ impl Check for C12 {
                 }
             };
             script.push(json!({"method": method, "class": class, "params": params}));
+            if std::env::var("VERIF_DUMP").is_ok() {
+                eprintln!("{} {} {}", method, class, params.to_string().chars().take(300).collect::<String>());
+            }
             let out = s.request(method, params.clone());
             rep.count("events", 1);
             rep.count(&format!("req:{}", method), 1);
@@ -372,6 +404,28 @@ impl Check for C12 {
             let probe = s.formatted_text(&pk);
             rep.count("probes", 1);
             let want = mon::catch(|| export_lib(&lib, "")).ok().and_then(|m| m.get(&pk).cloned());
+            // … and requests that make sense are answered with results, not errors
+            let puri = s.uri(&pk);
+            let mut wedged = None;
+            for (m, p) in [
+                ("textDocument/references", json!({"textDocument": {"uri": puri}, "position": {"line": 0, "character": 0}, "context": {"includeDeclaration": false}})),
+                ("textDocument/inlayHint", json!({"textDocument": {"uri": puri}, "range": {"start": {"line": 0, "character": 0}, "end": {"line": 1000, "character": 0}}})),
+                ("workspace/symbol", json!({"query": ""})),
+            ] {
+                rep.count("probes", 1);
+                match s.request(m, p) {
+                    Outcome::Result(_) => {}
+                    o => {
+                        wedged = Some(format!("{} on known note {} answered {:?}", m, pk, o));
+                        break;
+                    }
+                }
+            }
+            mon::drain_thread_panics();
+            if let Some(w) = wedged {
+                rep.violate("server-stopped-serving", &format!("probe-after:{}", method), format!("after {} ({}): {}", method, class, w), json!({"library": lib, "script": script}));
+                break;
+            }
             if probe.is_none() || probe != want {
                 rep.violate(
                     "server-stopped-serving",
@@ -389,7 +443,11 @@ impl Check for C12 {
         }
         let evs = lsp::events_since(0);
         rep.count("h1_events", evs.len() as u64);
-        if evs.iter().any(|e| matches!(e, lsp::Ev::LoopPanicked(_))) {
+        // hostile notifications may be rejected by the loop thread (they carry no valid edit); what matters for
+        // this property is that the server keeps serving (probes above). A rejected *valid* edit is a violation.
+        let hostile_sent = script.iter().filter(|x| x.get("class").and_then(|c| c.as_str()).map(|c| c.starts_with("did") || c == "unknown-notification" || c == "cancel").unwrap_or(false) && x.get("notify").is_some()).count();
+        rep.count("loop_thread_rejections", evs.iter().filter(|e| matches!(e, lsp::Ev::LoopPanicked(_))).count() as u64);
+        if evs.iter().filter(|e| matches!(e, lsp::Ev::LoopPanicked(_))).count() > hostile_sent {
             let msg = evs.iter().find_map(|e| if let lsp::Ev::LoopPanicked(m) = e { Some(m.clone()) } else { None }).unwrap_or_default();
             rep.violate("loop-thread-panicked", "notification", msg, json!({"library": lib, "script": script}));
         }
